@@ -98,10 +98,11 @@ def run_impl(case):
 
 def to_coq(case, obs):
     oc = "None" if obs["outcome"] is None else "(Some %s)" % OUTCOME.get(obs["outcome"], "OOther")
-    o = "(mkSmObs %s %s %s %s %s %s %s %s %s %s %s %s)" % (
+    joins = ct.lst(["(%s, %s)" % (WHO[w], ct.b(tm is not None)) for w, tm in (obs.get("joins") or [])])
+    o = "(mkSmObs %s %s %s %s %s %s %s %s %s %s %s %s %s)" % (
         oc, ct.n(obs["kills"]), ct.n(obs["kills_after_exit"]), ct.n(obs["intr"]), ct.n(obs["stop"]),
         ct.b(obs["flag"]), ct.lst([WHO[w] for w in obs["alive"]]), ct.b(obs["timer_armed"]),
-        ct.b(obs["timer_fired"]), ct.b(obs["reaped"]), ct.n(obs["nout"]), ct.n(obs["nerr"]))
+        ct.b(obs["timer_fired"]), ct.b(obs["reaped"]), ct.n(obs["nout"]), ct.n(obs["nerr"]), joins)
     ne = case.get("never_eof", [])
     return "(mk %s %s %s %s %s %s %s %s %s %s %s %s %s)" % (
         ct.b(case["pty"]), ct.b(bool(case.get("in"))), ct.b(case["warn"]), ct.b(case["async"]),
